@@ -160,6 +160,11 @@ def run_case(ctx, ws, case, idx):
     failures = []
     dh = Drillhole.create(ws, collar=case["collar"], surveys=np.array(case["surveys"], dtype=float), name=f"dh{idx}")
     sv = dh.surveys
+    given = np.array(case["surveys"], dtype=np.float32).astype(float)
+    if sv.shape != given.shape or not np.array_equal(np.asarray(sv, dtype=float), given):
+        # the path is the one surveyed: the stations the caller gave, in the order given (depths are non-decreasing)
+        failures.append((f"the survey table of the hole {np.asarray(sv).tolist()} is not the table given {given.tolist()}",
+                         "C18:survey-table-altered"))
     aug = np.vstack([sv[0, :], sv])
     aug[0, 0] = 0.0
     t = [float(x) for x in aug[:, 0]]
